@@ -1,4 +1,4 @@
-package woven
+package wire
 
 import (
 	"fmt"
@@ -13,7 +13,7 @@ import (
 	"verifsim/verifrt"
 )
 
-func init() { register(&harness.Prop{ID: "C11", Run: runC11}) }
+func init() { register(&harness.Prop{ID: "C11", Run: runC11, Variant: "B2"}) }
 
 const rfCapacity = 102400
 
@@ -179,7 +179,7 @@ func runC11Concurrent(c *harness.Ctx) {
 	t := c.T
 	c.Info["part"] = "concurrent"
 	verifrt.Activate(c.S)
-	defer verifrt.Deactivate()
+	c.AtEnd(verifrt.Deactivate)
 	ttl := []time.Duration{3 * time.Hour, 10}[t.Draw("ttl", 2)]
 	f, _ := replayfilter.New(ttl)
 	nCallers := 2 + t.Draw("callers", 3)
